@@ -2,7 +2,7 @@
    Statements only.  The phase list, module chain order, sort key and eps are GENERATED from
    starsim/loop.py, sim.py, settings.py (Gen/Gen_Loop.v). *)
 From SS Require Import Model.Prelude Model.L4_LoopBase Gen.Gen_Loop Model.L4_Loop
-  Proofs.P_Loop Proofs.P_LoopClock Proofs.P_LoopInst.
+  Proofs.P_Loop Proofs.P_LoopClock Proofs.P_LoopInst Proofs.P_LoopNames.
 From Coq Require Import List Permutation Sorted QArith.
 
 (* the collected phases are the documented ones, in the documented order *)
@@ -88,3 +88,15 @@ Example C08_nonvacuous :
   map (fun x => snd (fst x)) (filter (fun x => owner_eqb (f_owner (r_func (fst (fst x)))) (OMod 1)) (snd (run_rows clocks0 pl)))
     = [0; 0; 0; 0; 1; 1; 1; 1]%nat.
 Proof. vm_compute. repeat split; try reflexivity. repeat constructor; cbn; intuition discriminate. Qed.
+
+(* the implementation looks a module's time vector up by the module's NAME (Loop.collect_abs_tvecs): with pairwise distinct names that is the module's own
+   vector, as the plan of the model assumes ... *)
+Theorem C08_name_keyed_lookup_is_own_timeline_for_distinct_names : forall name sim_tvec mods, NoDup (map m_id mods) -> NoDup (map (fun m => name (m_id m)) mods) ->
+  forall m, In m mods -> owner_tvec_by_name name sim_tvec mods (OMod (m_id m)) = owner_tvec sim_tvec mods (OMod (m_id m)).
+Proof. exact owner_tvec_by_name_unique. Qed.
+(* ... but names are only unique per kind of module: an intervention and an analyzer of the same name are both scheduled on the later one's time vector
+   (listed finding plan-keyed-by-module-name) *)
+Theorem C08_name_keyed_lookup_refuted : exists name sim_tvec mods m, In m mods /\ NoDup (map m_id mods) /\
+  owner_tvec_by_name name sim_tvec mods (OMod (m_id m)) <> owner_tvec sim_tvec mods (OMod (m_id m)).
+Proof. exact owner_tvec_by_name_refuted. Qed.
+Print Assumptions C08_name_keyed_lookup_is_own_timeline_for_distinct_names. Print Assumptions C08_name_keyed_lookup_refuted.
